@@ -6,8 +6,10 @@ Two case shapes:
   delta, balance-group own / tree / delta, register amount / running total, for d and -d), plus the direct
   contract test of `Scale::get_precision` + `round_dp_with_strategy` + `{:.prec$}`.  The model answers with
   `shown sc d`.
-* op `run` on generated journals at a random scale: the model's `balanceReport` (kernel figures through
-  `shown`) against the figures of the real balance report; the register report is checked by the oracle.
+* op `run` on generated journals at a random scale (journal-level tie): the model's `balanceReport`,
+  `registerReport` and `balgrpReport` (engine figures through `shown`; output kinds `baltxt`, `regtxt`,
+  `balgrptxt`) against the figures parsed from the real balance, register and balance-group report texts at the
+  same scale, row by row.
 
 Oracle (no Lean involved): python `decimal` with ROUND_HALF_UP applied to the *exact* figures (the figure `d`
 itself, or the same journal reported at scale 0..28, which prints every figure as stored; those in turn are
@@ -171,6 +173,52 @@ def out_text(ans, key):
     return o.get("v")
 
 
+GROUP_BYS = ["year", "month", "date", "iso-week", "iso-week-date"]
+
+
+def split_reg_row(line, accts):
+    """a posting line of the register report whose account name touches the amount column (a name of 33 or more
+    characters followed by a negative figure that fills its column): split it with the help of the known account
+    names -> (acct, amount, total, comm) or None"""
+    body = line.strip()
+    for a in sorted(accts, key=len, reverse=True):
+        if body.startswith(a):
+            tok = body[len(a):].split()
+            if len(tok) == 2 and is_number(tok[0]) and is_number(tok[1]):
+                return (a, tok[0], tok[1], "")
+            if len(tok) == 3 and is_number(tok[0]) and is_number(tok[1]):
+                return (a, tok[0], tok[1], tok[2])
+    return None
+
+
+def repair_reg_rows(rows, accts):
+    """rows of `common.parse_register_report` / `parse_register`: re-split the unreadable ones"""
+    out = []
+    for r in rows:
+        if r[1] == "?" or r[0] == "?":
+            line = r[1] if r[0] == "?" else r[0]
+            out.append(split_reg_row(line, accts) or r)
+        else:
+            out.append(r)
+    return out
+
+
+def period_key(ns, group_by):
+    """the period text of an instant in UTC (python datetime; independent of the Lean model)"""
+    import datetime
+    dt = datetime.datetime(1970, 1, 1) + datetime.timedelta(seconds=int(ns) // 10 ** 9)
+    if group_by == "year":
+        return "%04d" % dt.year
+    if group_by == "month":
+        return "%04d-%02d" % (dt.year, dt.month)
+    if group_by == "date":
+        return "%04d-%02d-%02d" % (dt.year, dt.month, dt.day)
+    iy, iw, iwd = dt.isocalendar()
+    if group_by == "iso-week":
+        return "%04d-W%02d" % (iy, iw)
+    return "%04d-W%02d-%d" % (iy, iw, iwd)
+
+
 # ---------------------------------------------------------------------------------------------
 # figures
 
@@ -307,6 +355,16 @@ def post(acct, amount, comm=""):
     return {"acct": acct, "amount": amount, "unit": unit, "comment": None}
 
 
+def close_txn(t, last_acct):
+    """balance the transaction with an amount-less last posting, unless its postings already add up to zero
+    (a zero last posting is rejected)"""
+    if sum((D(p["amount"]) for p in t["posts"]), D(0)) == 0:
+        t["last"] = None
+    else:
+        t["last"] = {"acct": last_acct, "comment": None}
+    return t
+
+
 class C17(PropBase):
     id = "C17"
 
@@ -359,6 +417,13 @@ class C17(PropBase):
         n_j = 400 if quick else 20000
         for _ in range(n_j):
             out.append(self.mk_journal(rng))
+        # (c) register / balance-group boundary journals (journal-level tie of `regtxt` / `balgrptxt`)
+        n_rb = 160 if quick else 6000
+        for _ in range(n_rb):
+            out.append(self.mk_reg_boundary(rng))
+        n_gb = 160 if quick else 6000
+        for _ in range(n_gb):
+            out.append(self.mk_grp_boundary(rng))
         return out
 
     def mk_fmt(self, d, mn, mx, kind, journal=True):
@@ -405,7 +470,9 @@ class C17(PropBase):
         sel = None
         if rng.random() < 0.6:
             sel = ["p:c%d" % i for i in range(len(parts))] + ["r:acc"]
-        return self.mk_run(rng, {}, txns, mn, mx, "parts-%s-total-%s:%s" % ("up" if up else "down", "down" if up else "up", shape), sel)
+        return self.mk_run(rng, {}, txns, mn, mx, "parts-%s-total-%s:%s" % ("up" if up else "down", "down" if up else "up", shape), sel,
+                           sel_reg=sel if rng.random() < 0.5 else None, sel_grp=sel if rng.random() < 0.5 else None,
+                           group_by=rng.choice(GROUP_BYS))
 
     def mk_journal(self, rng):
         mn, mx = gen_scale(rng)
@@ -423,24 +490,189 @@ class C17(PropBase):
             names = [n for n in names if all(ch.isascii() and (ch.isalnum() or ch in ":_") for ch in n)]
             if names:
                 sel = rng.sample(names, rng.randrange(1, len(names) + 1))
-        return self.mk_run(rng, cfg, txns, mn, mx, "journal" + ("+sel" if sel else ""), sel)
+        sel_reg = sel_grp = None
+        if sel is not None or rng.random() < 0.4:
+            names = sorted({p["acct"] for t in txns for p in t["posts"]} | {t["last"]["acct"] for t in txns if t.get("last")})
+            names = [n for n in names if all(ch.isascii() and (ch.isalnum() or ch in ":_") for ch in n)]
+            if names and rng.random() < 0.6:
+                sel_reg = rng.sample(names, rng.randrange(1, len(names) + 1))
+            if names and rng.random() < 0.6:
+                sel_grp = rng.sample(names, rng.randrange(1, len(names) + 1))
+        return self.mk_run(rng, cfg, txns, mn, mx, "journal" + ("+sel" if (sel or sel_reg or sel_grp) else ""), sel,
+                           sel_reg=sel_reg, sel_grp=sel_grp, group_by=rng.choice(GROUP_BYS))
 
-    def mk_run(self, rng, cfg, txns, mn, mx, kind, sel):
+    def mk_run(self, rng, cfg, txns, mn, mx, kind, sel, sel_reg=None, sel_grp=None, group_by="month"):
         cfg = dict(cfg)
         cfg["scale_min"], cfg["scale_max"] = mn, mx
+        cfg["group_by"] = group_by
         c = {"op": "run", "kind": kind, "cfg": cfg, "scale": {"min": mn, "max": mx}, "txns": txns,
-             "text": common.render_journal(txns, common.gen_layout(rng))}
+             "text": common.render_journal(txns, common.gen_layout(rng)), "mgroup_by": group_by}
         if sel:
             cfg["sel_balance"] = list(sel)          # whole-name match of plain names (C11)
             c["msel_balance"] = list(sel)
+        if sel_reg:
+            cfg["sel_register"] = list(sel_reg)
+            c["msel_register"] = list(sel_reg)
+        if sel_grp:
+            cfg["sel_balgrp"] = list(sel_grp)
+            c["msel_balgrp"] = list(sel_grp)
         return c
+
+    # -- boundary journals of the register and the balance-group report ---------------------
+    def boundary_scale(self, rng):
+        """(min, max, extra): a scale and the number of stored decimals beyond max (0 when max = 28)"""
+        r = rng.random()
+        if r < 0.1:
+            mn, mx = 0, 0
+        elif r < 0.18:
+            mn, mx = 28, 28
+        elif r < 0.4:
+            mx = rng.randrange(0, 13)
+            mn = mx
+        elif r < 0.5:
+            mn, mx = 2, rng.choice([2, 4, 7])
+        else:
+            mx = rng.randrange(0, 13)
+            mn = rng.randrange(0, mx + 1)
+        extra = 0 if mx >= MAXS else rng.randrange(1, min(4, MAXS - mx) + 1)
+        return mn, mx, extra
+
+    def chain(self, rng, cls, mn, mx, extra):
+        """amounts (stored-form texts) posted one after the other to one account; `cls` names what sits on a
+        rounding boundary: the amounts, the running totals (= the account / tree sums of a group), or neither"""
+        unit = 10 ** extra                     # one unit of the last shown digit, in units of the stored scale
+        s = mx + extra
+        half = unit // 2
+        k = lambda: rng.randrange(0, 40) * unit
+        if extra == 0:
+            # max = 28: nothing is rounded; figures of different stored scales (padding to min only), small enough
+            # for every sum of the journal to be exact at 28 decimals (< 10^-1 each: 27 digits at scale 28)
+            out = []
+            for _ in range(rng.randrange(2, 5)):
+                si = rng.randrange(2, MAXS + 1)
+                out.append(mk_dec(rng.randrange(1, 10 ** min(6, si - 1)), si, rng.random() < 0.4))
+            return out
+        if cls == "mid-amounts":
+            # every amount is an exact midpoint; two of them add up to a multiple of the unit, three to a midpoint
+            n = rng.randrange(2, 6)
+            sg = rng.random() < 0.5
+            return [mk_dec(k() + half, s, sg if rng.random() < 0.8 else not sg) for _ in range(n)]
+        if cls == "mid-totals":
+            # no amount is a midpoint, every running total is one (up to sign)
+            # (the first amount is its own total: it is kept off the boundary, the totals after it are on it)
+            sg = -1 if rng.random() < 0.5 else 1
+            r0 = rng.choice([r for r in range(1, unit) if r != half])
+            tot = sg * (k() + r0)
+            out = [mk_dec(abs(tot), s, tot < 0)]
+            for i in range(rng.randrange(1, 5)):
+                while True:
+                    want = sg * (k() + half) if rng.random() < 0.85 else -sg * (k() + half)
+                    a = want - tot
+                    if a != 0 and abs(a) % unit != half:
+                        break
+                out.append(mk_dec(abs(a), s, a < 0))
+                tot = want
+            return out
+        if cls == "total-other-way":
+            up = rng.random() < 0.5
+            while True:
+                n = rng.randrange(2, 5)
+                res = [rng.randrange(half, unit) if up else rng.randrange(1, max(2, half)) for _ in range(n)]
+                tot = sum(res) % unit
+                if (up and tot < half) or (not up and tot >= half and all(2 * r < unit for r in res)):
+                    break
+            sg = rng.random() < 0.3
+            return [mk_dec(k() + r, s, sg) for r in res]
+        if cls == "neg-zero":
+            # totals that return to zero (a zero with a stored scale), and negative totals that round to zero
+            y = rng.randrange(1, max(2, half))
+            x = k() + rng.randrange(1, unit)
+            pat = rng.choice(["x,-x,-y,y", "-y,y,-x,x", "-x,x-y,y", "y,-2y,y", "-y,-x,x+y"])
+            vals = {"x": x, "-x": -x, "y": y, "-y": -y, "x-y": x - y, "-2y": -2 * y, "x+y": x + y}
+            out = []
+            for t in pat.split(","):
+                v = vals[t]
+                if v != 0:
+                    out.append(mk_dec(abs(v), s, v < 0))
+            return out
+        if cls == "own-precision":
+            # amounts and totals with different stored scales: each figure has its own precision
+            out = []
+            for i in range(rng.randrange(2, 5)):
+                si = rng.choice([0, 0, max(0, mn - 1), mn, min(MAXS, mn + 1), mx, s, rng.randrange(0, s + 1)])
+                out.append(mk_dec(rng.randrange(1, 10 ** rng.randrange(1, 7)), si, rng.random() < 0.4))
+            return out
+        return [common.gen_amount_text(rng) for _ in range(rng.randrange(2, 5))]
+
+    CHAINS = ["mid-amounts", "mid-totals", "total-other-way", "neg-zero", "own-precision", "random"]
+
+    def mk_reg_boundary(self, rng):
+        """one account (sometimes twice in a transaction, sometimes in two commodities) over several transactions:
+        midpoints in the amounts vs in the running totals, totals whose parts round the other way, totals that
+        return to zero or round to zero from below, own precision of each figure; scales 0/0, 28/28, min = max"""
+        mn, mx, extra = self.boundary_scale(rng)
+        cls = rng.choice(self.CHAINS)
+        amounts = self.chain(rng, cls, mn, mx, extra)
+        comm = rng.choice(["", "", "EUR"])
+        txns, i, day = [], 0, 1
+        while i < len(amounts):
+            t = plain_header(rng, 2024, rng.choice([1, 1, 2]), min(28, day))
+            day += rng.randrange(0, 3)
+            n = 2 if (rng.random() < 0.3 and i + 1 < len(amounts)) else 1
+            tc = comm if rng.random() < 0.85 else "USD"       # one commodity per transaction
+            t["posts"] = [post("r:acc", a, tc) for a in amounts[i:i + n]]
+            if rng.random() < 0.3:
+                t["posts"].append(post("r:other", rng.choice(amounts), tc))
+            txns.append(close_txn(t, rng.choice(["q", "q", "r"])))
+            i += n
+        rng.shuffle(txns)
+        sel_reg = rng.choice([None, None, ["r:acc"], ["r:acc", "r:other"], ["q"]])
+        sel_bal = rng.choice([None, None, ["r:acc", "r:other"]])
+        return self.mk_run(rng, {}, txns, mn, mx, "reg:%s%s" % (cls, "@max28" if extra == 0 else ""), sel_bal,
+                           sel_reg=sel_reg, sel_grp=sel_bal if rng.random() < 0.5 else None,
+                           group_by=rng.choice(GROUP_BYS))
+
+    def mk_grp_boundary(self, rng):
+        """several periods; in each, children `p:c<i>` of one parent receive the amounts of a chain: the account
+        sums, the tree sum of `p` and (with a selector listing only the children) the delta of every group sit on
+        the boundary the chain was built for"""
+        mn, mx, extra = self.boundary_scale(rng)
+        group_by = rng.choice(GROUP_BYS)
+        comm = rng.choice(["", "", "EUR"])
+        txns = []
+        kinds = []
+        for per in range(rng.randrange(1, 4)):
+            cls = rng.choice(self.CHAINS)
+            kinds.append(cls)
+            amounts = self.chain(rng, cls, mn, mx, extra)
+            y, mo, d0 = 2021 + per, rng.randrange(1, 13), rng.randrange(1, 25)
+            spread = rng.random() < 0.4          # the parts on several days: one group per month, several per date
+            one_txn = rng.random() < 0.4
+            if one_txn:
+                t = plain_header(rng, y, mo, d0)
+                t["posts"] = [post("p:c%d" % i, a, comm) for i, a in enumerate(amounts)]
+                txns.append(close_txn(t, "q"))
+            else:
+                same_acct = rng.random() < 0.3     # the account sum of one child is the chain's total
+                for i, a in enumerate(amounts):
+                    t = plain_header(rng, y, mo, d0 + (rng.randrange(0, 4) if spread else 0))
+                    t["posts"] = [post("p:c0" if same_acct else "p:c%d" % i, a, comm)]
+                    t["last"] = {"acct": rng.choice(["q", "q", "p"]), "comment": None}
+                    txns.append(t)
+        rng.shuffle(txns)
+        parts = sorted({p["acct"] for t in txns for p in t["posts"]})
+        sel_grp = rng.choice([None, parts, parts, parts + ["p"], ["p"], ["q"]])
+        sel_bal = rng.choice([None, parts])
+        return self.mk_run(rng, {}, txns, mn, mx, "grp:%s%s" % ("+".join(sorted(set(kinds))), "@max28" if extra == 0 else ""),
+                           sel_bal, sel_reg=rng.choice([None, parts]), sel_grp=sel_grp, group_by=group_by)
 
     # -- drivers ----------------------------------------------------------------------------
     def impl_case(self, case):
         if case["op"] == "fmt":
             return {k: v for k, v in case.items() if k not in ("scale",)}
-        c = {k: v for k, v in case.items() if k not in ("txns", "scale", "msel_balance")}
-        c["want"] = ["balance", "register", "txns"]
+        c = {k: v for k, v in case.items() if k not in ("txns", "scale", "msel_balance", "msel_register", "msel_balgrp",
+                                                        "mgroup_by")}
+        c["want"] = ["balance", "register", "balgrp", "txns"]
         return c
 
     def model_case(self, case):
@@ -448,7 +680,7 @@ class C17(PropBase):
             return {"op": "fmt", "d": case["d"], "scale": case["scale"]}
         c = {k: v for k, v in case.items() if k not in ("text",)}
         c["cfg"] = model_cfg(case.get("cfg", {}))
-        c["want"] = ["baltxt"]
+        c["want"] = ["baltxt", "regtxt", "balgrptxt"]
         return c
 
     def run_impl(self, impl_cases):
@@ -461,7 +693,7 @@ class C17(PropBase):
                 e = dict(c)
                 e["cfg"] = dict(c["cfg"])
                 e["cfg"]["scale_min"], e["cfg"]["scale_max"] = 0, MAXS
-                e["want"] = ["balance", "register"]
+                e["want"] = ["balance", "register", "balgrp"]
                 exp.append(e)
                 back.append((i, True))
         ans = common.run_driver([common.TK_IMPL], exp, jobs=min(4, common.NCPU))
@@ -539,6 +771,16 @@ class C17(PropBase):
             return d
         if impl.get("r") != "OK":
             return None
+        skipped = False
+        for f in (self.compare_balance, self.compare_register, self.compare_balgrp):
+            d = f(case, impl, model)
+            if d == "skip":
+                skipped = True
+            elif d:
+                return d
+        return "skip" if skipped else None
+
+    def compare_balance(self, case, impl, model):
         mo = model["out"]["baltxt"]
         if mo.get("r") == "UNDEF":
             return "skip"
@@ -556,6 +798,75 @@ class C17(PropBase):
             return "number of balance rows differs: impl=%d model=%d" % (len(irows), len(mo["v"]["rows"]))
         if ideltas != mo["v"]["deltas"]:
             return "balance deltas differ: impl=%s model=%s" % (ideltas, mo["v"]["deltas"])
+        return None
+
+    def compare_register(self, case, impl, model):
+        """`regtxt` (model: `registerReport` at the case's scale) against the real register report text, entry by
+        entry (instant, code, description, uuid) and row by row (account, amount as shown, running total as shown,
+        commodity)"""
+        mo = (model.get("out") or {}).get("regtxt")
+        if mo is None:
+            return None                      # an old corpus / replay case without the output kind
+        if mo.get("r") == "UNDEF":
+            return "skip"
+        io = (impl["out"].get("register") or {})
+        if io.get("r") != "OK" or mo.get("r") != "OK":
+            if io.get("r") == "ERR" and mo.get("r") == "ERR":
+                return None
+            return "register output status impl=%s model=%s" % (io.get("r"), mo.get("r"))
+        es = common.parse_register_report(io["v"])
+        if es is None:
+            return "register report without its title"
+        ment = mo["v"]
+        if len(es) != len(ment):
+            return "register: %d entries printed, model has %d" % (len(es), len(ment))
+        accts = {r[0] for e in ment for r in e["rows"]}
+        for k, (e, m) in enumerate(zip(es, ment)):
+            if e.get("garbled") is not None or e["ts"] is None:
+                return "register entry %d unreadable: %s" % (k, str(e.get("garbled"))[:120])
+            hi = (str(common.register_ts_ns(e["ts"])), e["code"], e["desc"], e["uuid"])
+            hm = (m["ns"], m["code"], m["desc"], m["uuid"])
+            if hi != hm:
+                return "register entry %d header differs: impl=%s model=%s" % (k, hi, hm)
+            irows = [list(r) for r in repair_reg_rows(e["rows"], accts)]
+            if irows != m["rows"]:
+                for a, b in zip(irows, m["rows"]):
+                    if a != b:
+                        return "register entry %d row differs (acct, amount, total, comm): impl=%s model=%s" % (k, a, b)
+                return "register entry %d: %d rows printed, model has %d" % (k, len(irows), len(m["rows"]))
+        return None
+
+    def compare_balgrp(self, case, impl, model):
+        """`balgrptxt` (model: `balgrpReport` at the case's scale) against the real balance-group report text, group
+        by group (title), row by row and delta by delta"""
+        mo = (model.get("out") or {}).get("balgrptxt")
+        if mo is None:
+            return None
+        if mo.get("r") == "UNDEF":
+            return "skip"
+        io = (impl["out"].get("balgrp") or {})
+        if io.get("r") != "OK" or mo.get("r") != "OK":
+            if io.get("r") == "ERR" and mo.get("r") == "ERR":
+                return None
+            return "balance-group output status impl=%s model=%s" % (io.get("r"), mo.get("r"))
+        gs = common.parse_balgrp_report(io["v"])
+        if gs is None:
+            return "balance-group report without its title"
+        mg = mo["v"]
+        if [g["title"] for g in gs] != [g["title"] for g in mg]:
+            return "balance-group titles differ: impl=%s model=%s" % ([g["title"] for g in gs][:12], [g["title"] for g in mg][:12])
+        for g, m in zip(gs, mg):
+            if g.get("garbled") is not None:
+                return "balance group %s unreadable: %s" % (g["title"], str(g["garbled"])[:120])
+            irows = [list(r) for r in g["rows"]]
+            if irows != m["rows"]:
+                for a, b in zip(irows, m["rows"]):
+                    if a != b:
+                        return "balance group %s row differs (comm, acct, own, tree): impl=%s model=%s" % (g["title"], a, b)
+                return "balance group %s: %d rows printed, model has %d" % (g["title"], len(irows), len(m["rows"]))
+            idel = [list(x) for x in g["deltas"]]
+            if idel != m["deltas"]:
+                return "balance group %s deltas differ: impl=%s model=%s" % (g["title"], idel, m["deltas"])
         return None
 
     # -- oracle ------------------------------------------------------------------------------
@@ -613,7 +924,54 @@ class C17(PropBase):
         crashed = report_crashed(impl)
         if crashed:
             return crashed
-        # ---- balance
+        txns = (impl["out"].get("txns") or {})
+        txns = txns["v"] if txns.get("r") == "OK" else None
+        return self.oracle_balance(case, impl, ex, txns, mn, mx) or \
+            self.oracle_register(case, impl, ex, txns, mn, mx) or \
+            self.oracle_balgrp(case, impl, ex, txns, mn, mx)
+
+    def check_block(self, where, srows, sdel, erows, edel, posts, mn, mx):
+        """one balance-shaped block (the balance report, or one group of the balance-group report): the figures at
+        the case's scale (`srows`, `sdel`) against the same block at scale 0..28 (`erows`, `edel`, every figure as
+        stored), and those against the sums of `posts` = [(comm, acct, amount text)] (None: not available)"""
+        if [r[:2] for r in srows] != [r[:2] for r in erows] or [x[0] for x in sdel] != [x[0] for x in edel]:
+            return {"sig": "scale-changes-rows", "what": "%s: the listed rows / deltas differ between scale %d..%d and 0..28" % (where, mn, mx)}
+        for s, e in zip(srows, erows):
+            f = check_figure("%s.own:%s %s" % (where, s[1], s[0]), s[2], e[2], mn, mx) or \
+                check_figure("%s.tree:%s %s" % (where, s[1], s[0]), s[3], e[3], mn, mx)
+            if f:
+                return f
+        for s, e in zip(sdel, edel):
+            f = check_figure("%s.delta:%s" % (where, s[0]), s[1], e[1], mn, mx)
+            if f:
+                return f
+        if posts is None:
+            return None
+        # ---- the exact figures are the unrounded sums of the accepted postings
+        own = {}
+        for (comm, acct, amount) in posts:
+            k = (comm, acct)
+            own[k] = own.get(k, D(0)) + D(amount)
+        for (comm, acct, eo, etr) in erows:
+            if D(eo) != own.get((comm, acct), D(0)):
+                return {"sig": "exact-own-sum", "what": "%s: account sum of %s %s at scale 0..28 is %s, postings sum to %s" % (
+                    where, acct, comm, eo, own.get((comm, acct), D(0)))}
+            sub = sum((v for (c, a), v in own.items() if c == comm and (a == acct or a.startswith(acct + ":"))), D(0))
+            if D(etr) != sub:
+                return {"sig": "exact-tree-sum", "what": "%s: tree sum of %s %s at scale 0..28 is %s, postings sum to %s" % (where, acct, comm, etr, sub)}
+        for (comm, ed) in edel:
+            tot = sum((D(r[2]) for r in erows if r[0] == comm), D(0))
+            if D(ed) != tot:
+                return {"sig": "exact-delta", "what": "%s: delta of %s at scale 0..28 is %s, listed account sums add to %s" % (where, comm, ed, tot)}
+        # the displayed total is the rounded exact total (it may differ from the sum of displayed parts)
+        for (comm, sd), (_, ed) in zip(sdel, edel):
+            tot = sum((D(r[2]) for r in erows if r[0] == comm), D(0))
+            want = tot.quantize(D(1).scaleb(-mx), rounding=decimal.ROUND_HALF_UP)
+            if D(sd) != want:
+                return {"sig": "total-not-rounded-exact-total", "what": "%s: delta %s shown %s, exact total %s rounds to %s" % (where, comm, sd, tot, want)}
+        return None
+
+    def oracle_balance(self, case, impl, ex, txns, mn, mx):
         st, et = out_text(impl, "balance"), out_text(ex, "balance")
         if st is None or et is None:
             if (st is None) != (et is None):
@@ -622,53 +980,32 @@ class C17(PropBase):
         sb, eb = parse_blocks(st), parse_blocks(et)
         srows, sdel = (sb[0][1], sb[0][2]) if sb else ([], [])
         erows, edel = (eb[0][1], eb[0][2]) if eb else ([], [])
-        if [r[:2] for r in srows] != [r[:2] for r in erows] or [x[0] for x in sdel] != [x[0] for x in edel]:
-            return {"sig": "scale-changes-rows", "what": "the listed rows / deltas differ between scale %d..%d and 0..28" % (mn, mx)}
-        for s, e in zip(srows, erows):
-            f = check_figure("balance.own:%s %s" % (s[1], s[0]), s[2], e[2], mn, mx) or \
-                check_figure("balance.tree:%s %s" % (s[1], s[0]), s[3], e[3], mn, mx)
-            if f:
-                return f
-        for s, e in zip(sdel, edel):
-            f = check_figure("balance.delta:%s" % s[0], s[1], e[1], mn, mx)
-            if f:
-                return f
-        # ---- the exact figures are the unrounded sums of the accepted postings
-        txns = (impl["out"].get("txns") or {})
-        if txns.get("r") == "OK":
-            own = {}
-            for t in txns["v"]:
-                for p in t["posts"]:
-                    k = (p["comm"], p["acct"])
-                    own[k] = own.get(k, D(0)) + D(p["amount"])
-            sel = case.get("msel_balance")
-            for (comm, acct, eo, etr) in erows:
-                if D(eo) != own.get((comm, acct), D(0)):
-                    return {"sig": "exact-own-sum", "what": "account sum of %s %s at scale 0..28 is %s, postings sum to %s" % (
-                        acct, comm, eo, own.get((comm, acct), D(0)))}
-                sub = sum((v for (c, a), v in own.items() if c == comm and (a == acct or a.startswith(acct + ":"))), D(0))
-                if D(etr) != sub:
-                    return {"sig": "exact-tree-sum", "what": "tree sum of %s %s at scale 0..28 is %s, postings sum to %s" % (acct, comm, etr, sub)}
-            for (comm, ed) in edel:
-                tot = sum((D(r[2]) for r in erows if r[0] == comm), D(0))
-                if D(ed) != tot:
-                    return {"sig": "exact-delta", "what": "delta of %s at scale 0..28 is %s, listed account sums add to %s" % (comm, ed, tot)}
-            # the displayed total is the rounded exact total (it may differ from the sum of displayed parts)
-            for (comm, sd), (_, ed) in zip(sdel, edel):
-                tot = sum((D(r[2]) for r in erows if r[0] == comm), D(0))
-                want = tot.quantize(D(1).scaleb(-mx), rounding=decimal.ROUND_HALF_UP)
-                if D(sd) != want:
-                    return {"sig": "total-not-rounded-exact-total", "what": "delta %s shown %s, exact total %s rounds to %s" % (comm, sd, tot, want)}
-        # ---- register
+        posts = None
+        if txns is not None:
+            posts = [(p["comm"], p["acct"], p["amount"]) for t in txns for p in t["posts"]]
+        return self.check_block("balance", srows, sdel, erows, edel, posts, mn, mx)
+
+    def oracle_register(self, case, impl, ex, txns, mn, mx):
         sr, er = out_text(impl, "register"), out_text(ex, "register")
         if sr is None or er is None:
             if (sr is None) != (er is None):
                 return {"sig": "scale-changes-report", "what": "register report fails at one scale only"}
             return None
         se, ee = parse_register(sr), parse_register(er)
+        if txns is not None and se is not None and ee is not None:
+            accts = {p["acct"] for t in txns for p in t["posts"]}
+            se = [repair_reg_rows(e, accts) for e in se]
+            ee = [repair_reg_rows(e, accts) for e in ee]
         if se is None or ee is None or [[(p[0], p[3]) for p in e] for e in se] != [[(p[0], p[3]) for p in e] for e in ee]:
             return {"sig": "scale-changes-rows", "what": "register entries differ between scale %d..%d and 0..28" % (mn, mx)}
-        priced = any((p.get("unit") or {}).get("closing") for t in case.get("txns", []) for p in t["posts"])
+        # without a register selector every posting is listed: the amounts at scale 0..28 are the accepted postings',
+        # as stored (so the running totals below are sums of the journal's own figures)
+        if txns is not None and not case.get("msel_register"):
+            shown_e = [sorted((p[0], p[3], p[1]) for p in e) for e in ee]
+            posted = [sorted((p["acct"], p["comm"], p["amount"]) for p in t["posts"]) for t in txns]
+            if shown_e != posted:
+                return {"sig": "exact-amounts", "what": "register amounts at scale 0..28 are not the accepted postings' amounts"}
+        full = not case.get("msel_register")      # with a selector hidden rows are accumulated too (C03)
         running = {}
         for s_ent, e_ent in zip(se, ee):
             for s, e in zip(s_ent, e_ent):
@@ -683,6 +1020,35 @@ class C17(PropBase):
                 want = running[k].quantize(D(1).scaleb(-mx), rounding=decimal.ROUND_HALF_UP)
                 if D(s[2]) != want:
                     return {"sig": "total-not-rounded-exact-total", "what": "running total of %s shown %s, exact %s rounds to %s" % (s[0], s[2], running[k], want)}
+        return None
+
+    def oracle_balgrp(self, case, impl, ex, txns, mn, mx):
+        sg, eg = out_text(impl, "balgrp"), out_text(ex, "balgrp")
+        if sg is None or eg is None:
+            if (sg is None) != (eg is None):
+                return {"sig": "scale-changes-report", "what": "balance-group report fails at one scale only"}
+            return None
+        sgs, egs = common.parse_balgrp_report(sg), common.parse_balgrp_report(eg)
+        if sgs is None or egs is None or [g["title"] for g in sgs] != [g["title"] for g in egs]:
+            return {"sig": "scale-changes-rows", "what": "balance-group titles differ between scale %d..%d and 0..28" % (mn, mx)}
+        gb = case.get("mgroup_by") or case.get("cfg", {}).get("group_by", "month")
+        members = None
+        if txns is not None:
+            members = {}
+            for t in txns:
+                members.setdefault(period_key(t["ts"]["ns"], gb), []).extend(
+                    (p["comm"], p["acct"], p["amount"]) for p in t["posts"])
+        for s, e in zip(sgs, egs):
+            if s.get("garbled") is not None or e.get("garbled") is not None:
+                return {"sig": "balgrp-parse", "what": "unreadable group %s" % s["title"]}
+            posts = None
+            if members is not None:
+                if s["title"] not in members:
+                    return {"sig": "group-without-members", "what": "group %s: no accepted transaction has this %s" % (s["title"], gb)}
+                posts = members[s["title"]]
+            f = self.check_block("balgrp[%s]" % s["title"], s["rows"], s["deltas"], e["rows"], e["deltas"], posts, mn, mx)
+            if f:
+                return f
         return None
 
     def nontrivial(self, case, impl):
@@ -704,19 +1070,30 @@ class C17(PropBase):
                 "reporters by a one-pair journal and read off every printed position. (b) journals: parts that round up "
                 "while the exact total rounds down (children of one parent, one account over several transactions, "
                 "selector deltas) and random journals (1-3 commodities, optional '@'/'=' prices, optional account "
-                "selector) at a random scale, each also reported at scale 0..28 for the exact figures. non-trivial = a "
-                "figure has more decimals than max or fewer than min; distinct = sha256 of the implementation case line")
+                "selectors for the balance, register and balance-group report, random group-by) at a random scale, each "
+                "also reported at scale 0..28 for the exact figures. (c) register boundary journals: one account over "
+                "several transactions (twice in one transaction, two commodities, hidden rows) whose amounts are exact "
+                "midpoints while the running totals are not, whose running totals are midpoints while the amounts are "
+                "not, whose amounts round one way and the totals the other, totals that return to zero or round to zero "
+                "from below, amounts and totals of different stored scales (own precision of each figure); "
+                "balance-group boundary journals: the same chains posted to the children of one parent in 1-3 periods "
+                "(one transaction or several, same day or spread over days, so that the grouping decides which parts "
+                "meet), with selectors listing only the parts (deltas); scales 0/0, 28/28, min = max throughout. For "
+                "every journal the model's balance, register and balance-group figures at the case's scale are compared "
+                "with the real report texts row by row. non-trivial = a figure has more decimals than max or fewer than "
+                "min; distinct = sha256 of the implementation case line")
 
     def trusted_base(self):
         return super().trusted_base() + [
-            "report text is tokenised at blanks (widths and alignment are not part of the property); the register "
-            "report has no Lean model yet in this tree: its figures are covered by the fmt tie (amount and running "
-            "total positions) and by the python oracle, not by the journal-level tie",
+            "report text is tokenised at blanks (widths and alignment are not part of the property; a register line "
+            "whose 33+ character account name touches a negative figure is split with the known account names); "
+            "register and balance-group reports are modelled without price conversion (report commodity unset) and "
+            "with the report zone UTC",
             "python decimal (ROUND_HALF_UP) as the independent arithmetic of the oracle"]
 
     def assumptions(self):
-        return ["figures have a stored scale <= 28 (Dec.WF; established by Dec.ofToken and preserved by the kernel: "
-                "theorem figures_scale_le)",
+        return ["figures have a stored scale <= 28 (Dec.WF; established by Dec.ofToken and preserved by the kernels: "
+                "theorems fromIter_figures, register_figures)",
                 "0 <= min <= max <= 28 (Scale.WF; enforced by Scale::from, modelled as Scale.ofRaw, tied on rejected scales)"]
 
 
